@@ -50,7 +50,7 @@ def dispatch(vm, m, callee, args):
     A = vm.alg
     c = callee
     # ---- f64 ---------------------------------------------------------------------------------
-    mm = re.match(r'^(?:std|core)::f64::<impl f64>::(\w+)$', c)
+    mm = re.match(r'^(?:std|core)::f(?:64|32)::<impl f(?:64|32)>::(\w+)$', c)
     if mm:
         n = mm.group(1); a = args
         if n in F64_1: return ret(m, A.call1(n, a[0]))
@@ -434,7 +434,7 @@ def _vec(vm, m, c, args):
                 new.append(outs[0][2])
         else: raise Unmodelled('Vec::extend from %r' % (src,))
         vm.write_at(m, r.cell, list(r.path), Seq(s.items + tuple(new))); return ret(m, UNIT)
-    if re.match(r'^<Vec<.*> as Index<usize>>::index$', c) or re.match(r'^<Vec<.*> as IndexMut<usize>>::index_mut$', c) \
+    if re.match(r'^<Vec<.*> as (std::ops::)?Index<usize>>::index$', c) or re.match(r'^<Vec<.*> as (std::ops::)?IndexMut<usize>>::index_mut$', c) \
             or re.match(r'^<\[.*\] as Index(Mut)?<usize>>::index(_mut)?$', c):
         refs = slice_refs(vm, m, args[0]); i = args[1]
         if is_sym(i): raise Unmodelled('symbolic Vec index')
